@@ -52,6 +52,18 @@ pub fn run_workers<R: Send>(block: usize, f: impl Fn(usize, &mut Claimer) -> R +
                     .expect("spawn")
             })
             .collect();
-        handles.into_iter().map(|h| h.join().expect("worker panicked")).collect()
+        handles
+            .into_iter()
+            .map(|h| match h.join() {
+                Ok(r) => r,
+                Err(p) => {
+                    // a panic of the harness itself (panics of the crate under test are caught at
+                    // the adapter level): machinery error, never a verdict
+                    let msg = p.downcast_ref::<&str>().map(|s| s.to_string()).or_else(|| p.downcast_ref::<String>().cloned()).unwrap_or_default();
+                    eprintln!("machinery error: a harness worker panicked: {}", msg);
+                    std::process::exit(2);
+                }
+            })
+            .collect()
     })
 }
